@@ -275,6 +275,166 @@ def short_circuit_rule(rep, fn):
     return n
 
 
+# ------------------------------------------------------------------ R-STALE: cursor advanced, bound not
+
+def stale_bound_rule(rep, fn):
+    """A buffer parameter P with its size parameter S: if P itself is advanced inside a loop (P += n, P++) while S is never
+    reduced, a guard of that loop that tests S must account for what was already consumed - through P itself or through an
+    accumulator that grows in the loop.  A guard `S < n` with the per-iteration length alone checks every piece against the
+    full original size: several pieces that each fit overflow the buffer together."""
+    n = 0
+    loops = fn.loops()
+    if not loops:
+        return 0
+    inloop = set().union(*[set(b) for b in loops.values()])
+    for (pn, sn, usz) in pairs_for(fn):
+        adv, szw, acc = [], [], set()
+        for pos, root, x, ps in fn.nodes():
+            t = None
+            grows = False
+            if x.get("k") == "un" and ("++" in x["op"] or "--" in x["op"]):
+                t = core.strip_casts(x["e"])
+                grows = True
+            elif x.get("k") == "bin" and x["op"].endswith("=") and x["op"] not in ("==", "!=", "<=", ">="):
+                t = core.strip_casts(x["x"])
+                grows = x["op"] in ("+=", "-=")
+            if t is not None and t.get("k") == "ref":
+                if t["n"] == pn and pos[0] in inloop and grows:
+                    adv.append(x)
+                if t["n"] == sn:
+                    szw.append(pos)
+                if grows and pos[0] in inloop:
+                    acc.add(t["n"])
+        if not adv or szw:
+            continue
+        for bid in sorted(inloop):
+            c = fn.blocks[bid].cond
+            if c is None:
+                continue
+            names = {r["n"] for r in core.refs(c)}
+            if sn not in names or pn in names:
+                continue
+            n += 1
+            inst = "stale-bound:%s/%s" % (pn, sn)
+            desc = "%s: '%s' advances in the loop; the guard %s on its size '%s' accounts for what was already consumed" % (fn.name, pn, key(c)[:50], sn)
+            if names & acc:
+                rep.proved("R-STALE", fn, inst, desc, "it involves the running total '%s'" % sorted(names & acc)[0], c.get("ln"))
+            else:
+                rep.violated("R-STALE", fn, inst, desc, "'%s' is advanced (line %s) but '%s' is never reduced and the guard compares it with a per-iteration "
+                             "value only: pieces that each fit the original size overflow the buffer together" % (pn, adv[0].get("ln"), sn), c.get("ln"))
+    return n
+
+
+# ------------------------------------------------------------------ R-GUARD0: constant-extent write never compared with the size
+
+def _derived_names(fn, sn):
+    names = {sn}
+    for _ in range(3):
+        for pos, root, x, ps in fn.nodes():
+            if x.get("k") == "bin" and x["op"] == "=" and core.strip_casts(x["x"]).get("k") == "ref":
+                if any(r["n"] in names for r in core.refs(x["y"])):
+                    names.add(core.strip_casts(x["x"])["n"])
+            if x.get("k") == "decl":
+                for v in x.get("vars", []):
+                    if v.get("init") is not None and any(r["n"] in names for r in core.refs(v["init"])):
+                        names.add(v["n"])
+    return names
+
+
+def unguarded_write_rule(rep, fn):
+    """an output parameter P with size parameter S: a write of a constant number of bytes at the start of P (memset / memcpy
+    with a constant length - directly or through a local that was assigned a constant -, or P[k] = ...) is reached only
+    through a branch that looks at S or at something computed from it.  A path from the entry to such a write on which S is
+    never examined writes the constant extent whatever the caller's size is."""
+    n = 0
+    u = fn.unit
+    for (pn, sn, usz) in pairs_for(fn):
+        pt = [p for p in fn.params if p["n"] == pn][0]
+        if u.type(pt["t"])["k"] != "ptr" or u.type(u.type(pt["t"])["to"]).get("const"):
+            continue
+        dn = _derived_names(fn, sn)
+        testing = {bid for bid, b in fn.blocks.items() if b.cond is not None and any(r["n"] in dn for r in core.refs(b.cond))}
+
+        def free_reach(start):
+            seen, st = set(), list(start)
+            while st:
+                b = st.pop()
+                if b in seen:
+                    continue
+                seen.add(b)
+                if b in testing:
+                    continue
+                st.extend(fn.blocks[b].rsucc())
+            return seen
+        from_entry = free_reach([fn.entry])
+        modified = [pos for pos, root, x, ps in fn.nodes() if
+                    (x.get("k") == "un" and ("++" in x["op"] or "--" in x["op"]) and core.is_ref(core.strip_casts(x["e"]), name=pn)) or
+                    (x.get("k") == "bin" and x["op"].endswith("=") and x["op"] not in ("==", "!=", "<=", ">=") and
+                     core.is_ref(core.strip_casts(x["x"]), name=pn))]
+        for pos, root, x, ps in fn.nodes():
+            ext = None
+            what = None
+            if x.get("k") == "call" and x.get("fn") in ("memset", "memcpy", "memmove", "bzero", "explicit_bzero") and x.get("args"):
+                a0 = core.strip_casts(x["args"][0])
+                if a0.get("k") == "ref" and a0["n"] == pn:
+                    ext = x["args"][-1]
+                    what = "%s(%s, ...)" % (x["fn"], pn)
+            elif x.get("k") == "bin" and x["op"] == "=" and core.strip_casts(x["x"]).get("k") == "sub":
+                sx = core.strip_casts(x["x"])
+                if core.is_ref(core.strip_casts(sx["b"]), name=pn) and const_val(sx["i"]) is not None:
+                    ext = {"k": "int", "v": const_val(sx["i"]) + 1, "cv": const_val(sx["i"]) + 1}
+                    what = "%s[%d] = ..." % (pn, const_val(sx["i"]))
+            if ext is None or any(fn.pos_dominates(m, pos) for m in modified):
+                continue
+            k = const_val(ext)
+            via = None
+            e0 = core.strip_casts(ext)
+            if k is None and e0.get("k") == "ref" and e0.get("dk") == "local":
+                for p2, r2, d, ps2 in fn.nodes():
+                    if d.get("k") == "bin" and d["op"] == "=" and core.is_ref(core.strip_casts(d["x"]), id=e0.get("id")) and const_val(d["y"]) is not None:
+                        if p2[0] in from_entry and p2[0] not in testing and pos[0] in free_reach([p2[0]]):
+                            k, via = const_val(d["y"]), d
+            if k is None or k <= 0:
+                continue
+            n += 1
+            inst = "unguarded:%s" % what
+            desc = "%s: the %d-byte write %s happens only after the size '%s' was examined" % (fn.name, k, what, sn)
+            if pos[0] in from_entry and pos[0] not in testing or (pos[0] in from_entry and pos[0] in testing and False):
+                rep.violated("R-GUARD0", fn, inst, desc, "a path from the entry reaches line %s without any test of '%s' or of a value computed from it%s: "
+                             "for %s < %d the write passes the end of the buffer" % (x.get("ln"), sn, (" (length set to %d at line %s)" % (k, via.get("ln"))) if via else "",
+                                                                                    sn, k), x.get("ln"))
+            else:
+                rep.proved("R-GUARD0", fn, inst, desc, "every path passes a test of %s" % sorted(dn)[:3], x.get("ln"))
+    return n
+
+
+# ------------------------------------------------------------------ R-AGREE: tail fill
+
+def tail_fill_rule(rep, fn):
+    """`memset(P + X, c, S - Y)` on a buffer parameter P of size S fills "the rest": it must begin where it says the rest
+    begins, X == Y (same expression).  A start offset counted in another unit (digits instead of bytes) wipes bytes inside
+    the value and leaves the end of the buffer unwritten."""
+    n = 0
+    for (pn, sn, usz) in pairs_for(fn):
+        for pos, root, c, ps in fn.calls({"memset", "bzero", "explicit_bzero"}):
+            a0 = core.strip_casts(c["args"][0])
+            ln_ = core.strip_casts(c["args"][-1])
+            if not (a0.get("k") == "bin" and a0["op"] == "+" and core.is_ref(core.strip_casts(a0["x"]), name=pn)):
+                continue
+            if not (ln_.get("k") == "bin" and ln_["op"] == "-" and core.is_ref(core.strip_casts(ln_["x"]), name=sn)):
+                continue
+            n += 1
+            x_, y_ = key(core.strip_casts(a0["y"])), key(core.strip_casts(ln_["y"]))
+            inst = "tail-fill:%s" % pn
+            desc = "%s: the fill of the rest of '%s' starts at the offset that is subtracted from '%s'" % (fn.name, pn, sn)
+            if x_ == y_:
+                rep.proved("R-AGREE", fn, inst, desc, "%s + %s, %s - %s" % (pn, x_, sn, y_), c.get("ln"))
+            else:
+                rep.violated("R-AGREE", fn, inst, desc, "it starts at %s + %s but its length is %s - %s: the region does not end at the end of the buffer" % (
+                    pn, x_, sn, y_), c.get("ln"))
+    return n
+
+
 def run_scope(rep, tier, us, exclude=(), only=None, budget_quick=45, extra_rules=()):
     """analyse every function defined in the units' own files; returns (functions, tracked accesses)"""
     jobs = []
@@ -291,6 +451,9 @@ def run_scope(rep, tier, us, exclude=(), only=None, budget_quick=45, extra_rules
         for n in names:
             fn = u.fn(n)
             short_circuit_rule(rep, fn)
+            stale_bound_rule(rep, fn)
+            unguarded_write_rule(rep, fn)
+            tail_fill_rule(rep, fn)
             for r in extra_rules:
                 r(rep, fn)
     return nfn, total
@@ -307,3 +470,11 @@ def selftest_cursor():
             short_circuit_rule(rep, f)
     fixtures.expect(rep, ["fx_scan_bad_order", "fx_scan_bad_le", "fx_copy_bad_term", "fx_idx_bad", "fx_peek_bad", "fx_find_bad"],
                     ["fx_scan_ok", "fx_copy_ok", "fx_copy_ok_term", "fx_idx_ok", "fx_peek_ok", "fx_loop_ok", "fx_tab_ok", "fx_find_ok"], "R-CURSOR")
+    u = fixtures.load("lints.c")
+    rep = driver.Report("fixture", "quick")
+    for f in u.function_list:
+        if f.name.startswith("fx_"):
+            stale_bound_rule(rep, f)
+            unguarded_write_rule(rep, f)
+            tail_fill_rule(rep, f)
+    fixtures.expect(rep, ["fx_gather_bad", "fx_zero_bad", "fx_fill_bad"], ["fx_gather_ok", "fx_zero_ok", "fx_fill_ok"], "R-STALE / R-GUARD0 / tail fill")
